@@ -48,7 +48,13 @@ type StubInformer struct {
 	IndexerFuncs  cache.Indexers
 	// Indexer is the stub cache returned by GetIndexer.
 	Indexer *StubIndexer
+	// Unsynced: the initial LIST never completes (HasSynced stays false).
+	Unsynced bool
 }
+
+// NextUnsynced makes every stub informer created from now on report
+// HasSynced() == false (its initial LIST is still pending). Reset clears it.
+var NextUnsynced bool
 
 // StubIndexer implements cache.Indexer just far enough for NewLister.
 type StubIndexer struct {
@@ -72,6 +78,7 @@ func Reset() {
 	regMu.Lock()
 	defer regMu.Unlock()
 	registry = nil
+	NextUnsynced = false
 }
 
 // Stubs returns the stub informers created since the last reset, in
@@ -112,6 +119,7 @@ func Settle(want int) {
 func NewSharedIndexInformer(lw cache.ListerWatcher, exampleObject runtime.Object, defaultEventHandlerResyncPeriod time.Duration, indexers cache.Indexers) cache.SharedIndexInformer {
 	s := &StubInformer{Resync: defaultEventHandlerResyncPeriod, ListerWatcher: lw, IndexerFuncs: indexers}
 	s.Indexer = &StubIndexer{Owner: s}
+	s.Unsynced = NextUnsynced
 	regMu.Lock()
 	s.Seq = len(registry)
 	registry = append(registry, s)
@@ -203,7 +211,7 @@ func (s *StubInformer) Handler(i int) cache.ResourceEventHandler {
 
 func (s *StubInformer) GetStore() cache.Store           { return s.Indexer }
 func (s *StubInformer) GetIndexer() cache.Indexer       { return s.Indexer }
-func (s *StubInformer) HasSynced() bool                 { return true }
+func (s *StubInformer) HasSynced() bool                 { return !s.Unsynced }
 func (s *StubInformer) LastSyncResourceVersion() string { return "" }
 func (s *StubInformer) IsStopped() bool                 { return s.Stopped() }
 func (s *StubInformer) AddIndexers(indexers cache.Indexers) error {
